@@ -345,6 +345,7 @@ func (u *Unit) doAppend(st *State, fr *Frame, in *ssa.Call, et types.Type, s Sli
 				ok = u.require(s1, fr, False, "frame", in)
 			}
 			if ok {
+				s1.alloc = IntAdd(s1.alloc, IntMul(aLen, IntK(esz)))
 				if u.appendWrite(s1, s.R, IntAdd(s.Off, s.Len), et, aR, aOff, aLen) {
 					outs = append(outs, Outcome{s1, SliceV{s.R, s.Off, nl, s.Cap}})
 				} else {
@@ -369,7 +370,7 @@ func (u *Unit) doAppend(st *State, fr *Frame, in *ssa.Call, et types.Type, s Sli
 	r.zero = true
 	ncap := Fresh("appendcap", SortInt)
 	s2.assume(And(IntLe(nl, ncap), IntLe(ncap, IntK(1<<41))))
-	s2.alloc = IntAdd(s2.alloc, IntMul(nl, IntK(esz)))
+	s2.alloc = IntAdd(s2.alloc, IntMul(aLen, IntK(esz))) // amortised: payload bytes per appended element (A3)
 	if s.R != nil {
 		if s.R.concrete {
 			u.unsupported("append reallocating a concrete-list region symbolically")
